@@ -1,0 +1,8 @@
+//go:build verif
+
+package server
+
+import "time"
+
+// VerifNoShareDelay disables the anti-timing sleep on refused share requests.
+func VerifNoShareDelay() { timeSleep = func(time.Duration) {} }
